@@ -255,8 +255,12 @@ def api_calls(tree, tree2, o, spec, spec2):
 def inputs_case(sink, seed, idx):
     rng = gen.case_rng(seed, 'c14in', idx)
     o = gen.rand_opt(rng, preds=('none', 'none', 'is_list', 'pair'))
-    d1, _ = gen.gen_desc(rng, gen.PROFILE_NAMES[idx % len(gen.PROFILE_NAMES)], 12)
-    rel = idx % 4
+    rel = idx % 5
+    if rel == 4:
+        # dict-heavy pairs with a key mismatch: the error paths of the binary treespec operations
+        d1 = gen.TreeGen(rng, gen.Profile('strdicts', {'dict': 4, 'odict': 4, 'ddict': 2, 'list': 1}, max_depth=3, key_styles=('str', 'str', 'int'), leaf_styles=('L',))).tree(10)
+    else:
+        d1, _ = gen.gen_desc(rng, gen.PROFILE_NAMES[idx % len(gen.PROFILE_NAMES)], 12)
     if rel == 0:
         d2, _ = gen.substitute_leaves(d1, rng, 0.5, 'plain', 4)
     elif rel == 1:
@@ -264,6 +268,12 @@ def inputs_case(sink, seed, idx):
     elif rel == 2:
         d2, _ = gen.breaking_edit(d1, rng)
         d2 = d2 or d1.copy()
+    elif rel == 4:
+        d2, _ = gen.neutral_edit(d1, rng)
+        d2b, _ = gen.breaking_edit(d2, rng, only=('key', 'arity+', 'arity-'))
+        d2 = d2b or d2
+        if rng.random() < 0.5:
+            d1, d2 = d2, d1
     else:
         d2, _ = gen.gen_desc(rng, 'dicts', 8)
     t1, _ = gen.materialize(d1, rng)
